@@ -107,7 +107,17 @@ def run_prefix(mod, evcls=ObjEvaluator, Laue="-3", cc="rhombohedral", csys="trig
     body = core.body_wo_doc(fn)
     for i, st in enumerate(body):
         if isinstance(st, (ast.For, ast.While)):
-            return ev, env, st, body[i + 1:]
+            # a loop that can be evaluated (a scan of a static table) belongs to the prefix; the walk cannot be evaluated
+            trial = {k_: (v_.copy() if isinstance(v_, Arr) else v_) for k_, v_ in env.items()}
+            try:
+                ev.exec_stmt(st, trial)
+                env.clear()
+                env.update(trial)
+                continue
+            except (PyRaise, RaiseReached, _Return):
+                raise AnalysisError("genhkl_base rejects Laue class %r / %r before the walk" % (Laue, cc))
+            except AnalysisError:
+                return ev, env, st, body[i + 1:]
         try:
             ev.exec_stmt(st, env)
         except (PyRaise, RaiseReached, _Return):
